@@ -162,24 +162,27 @@ NOT_APPLICABLE['C20'] = ('equivalence with netCDF4.Variable indexing/assignment:
 
 # --- rules added after the second round of seeded changes (appended to the level text by gen_manifest) ---------------------------------
 ADDENDA.update({
- 'C01': 'Also: kind-level abstract interpretation of orthogonal_indexer over every key pattern of length <= 4 and of expanded_indexer over every Ellipsis placement; '
+ 'C01': 'Also: provenance of every issorted= claim (caller option or increasing-order test); empty list indices re-typed to int before positional use. Kind-level abstract interpretation of orthogonal_indexer over every key pattern of length <= 4 and of expanded_indexer over every Ellipsis placement; '
         'the (indices, axis=k) rewriting of _get_indices over a table of axis values (None, 0, positive, negative, name); the option-plumbing table (RF).',
  'C02': 'Also: strict-rule stop never becomes the wrap-around position -1 (checked over all positions and step values); orthogonal_indexer rule shared with C01; option-plumbing table (RF).',
  'C03': 'Also: the (indices, axis) form, the orthogonal conversion (shared with C01) and the values setter (stores the widened buffer it writes into); option-plumbing table (RF).',
  'C04': 'Also: align_dims returns its inputs untouched only when the ordered dims coincide; the kind reconciliation ahead of the label merge (common-kind table, full-width cast) shared with C06.',
  'C05': 'Also: an Axes list grows only through the checked Axes.append (no extend / += / raw list primitives); the label-list constructor form is recognised by element type (empty lists included).',
- 'C06': 'Also: _check_axes_merge casts with a full-width dtype and only when kinds differ; _get_cast_kind table; direction of the sorted union for every pair of operand directions '
+ 'C06': 'Also: direction of the common axis for lists of inputs (union table composed over the fold; one more known finding); Axis.__eq__ exact; placeholder-only skipping in the fold; _check_axes_merge casts with a full-width dtype and only when kinds differ; _get_cast_kind table; direction of the sorted union for every pair of operand directions '
         '(increasing / decreasing / single label); first / last labels are read only under a size guard; Dataset.reindex_axis cross-checked against DimArray.reindex_axis. '
-        'One known finding (reindexing an empty source axis).',
+        'Two known findings (reindexing an empty source axis; fold direction with two single-label inputs after a decreasing one).',
  'C07': 'Also: the locate_many contract (searchsorted over argsort, mapped back, past-the-end clipped) and the (indices, axis) form of _get_indices, shared with C01.',
  'C08': 'Also: scalar-vs-array dispatch of reduction results uses dimensionality, never size == 1; flatten rules shared with C11.',
  'C09': 'Also: the values setter used by argmin / argmax, apply_along_axis coherence (shared with C08), _deal_with_axis and flatten (shared).',
- 'C10': 'Also: metadata provenance of transpose / swapaxes / rollaxis / newaxis / squeeze / repeat / broadcast / reshape (rule shared with C16).',
+ 'C10': 'Also: newaxis / swapaxes decided for every rank 0-4 and every position incl. negative ones (bounded check); broadcast relabels the None placeholder of an inserted dimension also for single-label targets; the reshape pipeline (shared with C11); metadata provenance of transpose / swapaxes / rollaxis / newaxis / squeeze / repeat / broadcast / reshape (rule shared with C16).',
  'C11': 'Also: _deal_with_axis groups a tuple of dimensions in the listed order (shared with C08).',
- 'C12': 'Also: for dict input the i-th array is the one stored under the i-th key; the align() reindex loop and the kind reconciliation used with align=True (shared with C06).',
- 'C14': 'Also: Dataset.reindex_axis as a sibling cross-check (same lookup call as DimArray.reindex_axis, per-variable fill addressed by dimension name); option-plumbing table (RF).',
+ 'C12': 'Also: stack compares singleton axes too; the concatenation position is normalised; joined labels keep NumPy\'s common type; for dict input the i-th array is the one stored under the i-th key; the align() reindex loop and the kind reconciliation used with align=True (shared with C06).',
+ 'C14': 'Also: reflected arithmetic per variable; concatenate_ds by dimension name with has-dimension guard; axis metadata through reduce_axis; interpolation weights (shared with C18); Dataset.reindex_axis as a sibling cross-check (same lookup call as DimArray.reindex_axis, per-variable fill addressed by dimension name); option-plumbing table (RF).',
  'C15': 'Also: constructors (DimArray, Dataset, Axis, Axes, MultiAxis, DatasetAxes) write into none of their arguments.',
  'C16': 'Also: the unary operator table (__neg__, __pos__, __invert__ are the metadata-free _unary_op over the NumPy function of the same name).',
  'C17': 'Also: is_boolean_array decision table (ndarray or DimArray of bool dtype, nothing else); flatten rules shared with C11; option-plumbing table (RF).',
+ 'C13': 'Also: Axis.__eq__ (the label comparison behind rejected assignments) is exact; bulk renames (rename_axes, dims setter of variables) fetch every Axis before renaming any; '
+        'ds.axes[key] = Axis resolves the position before the replacement; the align() reindex loop used by Dataset construction.',
+ 'C18': 'Also: integer fibres are promoted to float before the difference; interp_like skips a shared dimension only on exact label equality.',
  'C19': 'Also: the reader uses the written shape (nested lists lose it for empty dimensions), does not consume its input dict, and the constructor takes label lists of any length.',
 })
